@@ -107,6 +107,11 @@ def monitors_lock(cfg, op, o):
     return out
 
 
+def monitors_c05_with_lock(cfg, op, o):
+    """C05's predicate plus the definition of "paid out" for this contract (what users really received as LOCKED tokens)"""
+    return monitors_c05(cfg, op, o) + monitors_lock(cfg, op, o)
+
+
 # ------------------------------------------------------------------ C06
 def expected_settle(pre, cfgp, blk, dsc):
     if blk <= pre["last"] or not cfgp["produce"]:
